@@ -160,6 +160,8 @@ def main():
             ctx.inconclusive('obligation %s: expected %s, solver says %s (no replay handler)' % (o.name, o.expect, o.result))
     for d in chk.cross_disagreements():
         ctx.inconclusive('cross-solver disagreement: %r' % (d,))
+    for nm_, det_ in getattr(chk, 'shape_failures', []):
+        ctx.inconclusive('the code no longer has the shape this check is written against (cannot decide): %s (%s)' % (nm_, str(det_)[:160]))
     for g in chk.grounds:
         if not g[1] and not getattr(chk, 'ground_handled', {}).get(g[0]):
             ctx.inconclusive('ground fact failed without handler: %s %s' % (g[0], g[2]))
